@@ -75,6 +75,21 @@ def match_types(writer_type, reader_type, named_schemas):
     return False
 
 
+def _match_union_branch(w_schema, r_union, named_schemas):
+    """The branch of a reader union that a writer schema resolves to: the first
+    one of the same type and otherwise the first one reachable by promotion"""
+    w_type = extract_record_type(w_schema)
+    for schema in r_union:
+        if extract_record_type(schema) == w_type and match_types(
+            w_schema, schema, named_schemas
+        ):
+            return schema
+    for schema in r_union:
+        if match_types(w_schema, schema, named_schemas):
+            return schema
+    return None
+
+
 def match_schemas(w_schema, r_schema, named_schemas):
     error_msg = f"Schema mismatch: {w_schema} is not {r_schema}"
     if isinstance(w_schema, list):
@@ -84,11 +99,10 @@ def match_schemas(w_schema, r_schema, named_schemas):
     elif isinstance(r_schema, list):
         # If the reader is a union, ensure one of the new schemas is the same
         # as the writer
-        for schema in r_schema:
-            if match_types(w_schema, schema, named_schemas):
-                return schema
-        else:
+        schema = _match_union_branch(w_schema, r_schema, named_schemas)
+        if schema is None:
             raise SchemaResolutionError(error_msg)
+        return schema
     else:
         # Check for dicts as primitive types are just strings
         if isinstance(w_schema, dict):
@@ -427,19 +441,17 @@ def read_union(
             else:
                 raise SchemaResolutionError(msg)
         else:
-            for schema in reader_schema:
-                if match_types(idx_schema, schema, named_schemas):
-                    idx_reader_schema = schema
-                    result = read_data(
-                        decoder,
-                        idx_schema,
-                        named_schemas,
-                        schema,
-                        options,
-                    )
-                    break
-            else:
+            schema = _match_union_branch(idx_schema, reader_schema, named_schemas)
+            if schema is None:
                 raise SchemaResolutionError(msg)
+            idx_reader_schema = schema
+            result = read_data(
+                decoder,
+                idx_schema,
+                named_schemas,
+                schema,
+                options,
+            )
     else:
         result = read_data(decoder, idx_schema, named_schemas, None, options)
 
